@@ -43,6 +43,14 @@ def _graphs(nv, E):
     return out
 
 
+def _antiparallel(nv, E):
+    """the directed graph that joins every pair of E in BOTH directions: two edges per pair, each contributing its block"""
+    import menpo.shape as ms
+
+    ed = [[a - 1, b - 1] for a, b in sorted(E)]
+    return ms.DirectedGraph.init_from_edges(np.array(ed + [[b, a] for a, b in ed], dtype=int).reshape(-1, 2), nv)
+
+
 def _dense(Q):
     return np.asarray(Q.todense()) if hasattr(Q, "todense") else np.asarray(Q)
 
@@ -150,10 +158,26 @@ def check_batch(o):
                     r = tag + ": raised %s: %s" % (type(e).__name__, str(e)[:100])
                 if r:
                     bad.append((r, {"edges": c["E"], "mode": c["mode"], "bias": c["bias"]}, None))
+            # a directed graph may join two vertices in both directions: two edges, two (equal) blocks - the precision is twice that of
+            # the one-directional graph, in either storage
+            if sparse and gname == "undirected" and c["E"]:
+                ga = _antiparallel(nv, c["E"])
+                Qx2 = 2.0 * L.mat(o["stats"]["Q"])
+                for sp2 in (True, False):
+                    try:
+                        Qa = _dense(GMRFVectorModel(data.copy(), ga, mode=c["mode"], sparse=sp2, bias=c["bias"]).precision).astype(float)
+                    except Exception as e:
+                        bad.append(("directed graph with antiparallel edges (%s storage) raised %s" % ("sparse" if sp2 else "dense", type(e).__name__), {}, None))
+                        continue
+                    if Qa.shape != Qx2.shape or not np.allclose(Qa, Qx2, rtol=0, atol=1e-9 * max(1.0, np.abs(Qx2).max())):
+                        bad.append(("directed graph with antiparallel edges: the %s precision is not the sum over its edges (max diff %.3g)" % (
+                            "sparse" if sp2 else "dense", np.abs(Qa - Qx2).max() if Qa.shape == Qx2.shape else float("nan")), {"edges": c["E"], "mode": c["mode"]}, None))
             # the same samples carried far from the origin (a large common offset):
             # the precision does not see an offset, in either storage, in either number type
             if sparse:
-                far = data + 262144.37          # (not a float32 number: rounding the SAMPLES to single precision would cost two digits)
+                # (in another unit as well, so that the entries are not single-precision numbers: rounding the SAMPLES to float32 would
+                #  cost two digits of their spread)
+                far = data * 0.737 + 262144.37
                 ref = None
                 for sp2 in (False, True):
                     for dt2 in (np.float64, np.float32):
@@ -270,6 +294,20 @@ def check_incr(o):
                 if r:
                     bad.append((r, {"edges": c["E"], "mode": c["mode"], "bias": c["bias"], "composition": comp}, None))
                     break
+    # the same composition on the directed graph that joins every pair in both directions: increments == batch, either storage
+    if c["E"]:
+        ga = _antiparallel(nv, c["E"])
+        for sparse in (True, False):
+            b_ = GMRFVectorModel(data.copy(), ga, mode=c["mode"], sparse=sparse, bias=c["bias"])
+            a = comp[0]
+            m = GMRFVectorModel(data[:a].copy(), ga, mode=c["mode"], sparse=sparse, bias=c["bias"], incremental=True)
+            for k in range(1, len(comp)):
+                m.increment(data[a:a + comp[k]].copy())
+                a += comp[k]
+            Qb, Qm = _dense(b_.precision).astype(float), _dense(m.precision).astype(float)
+            if Qb.shape != Qm.shape or not np.allclose(Qb, Qm, rtol=0, atol=1e-8 * max(1.0, np.abs(Qb).max())):
+                bad.append(("directed graph with antiparallel edges, %s storage: the incremented precision differs from the batch one (max %.3g)" % (
+                    "sparse" if sparse else "dense", np.abs(Qb - Qm).max()), {"edges": c["E"], "composition": comp}, None))
     return bad
 
 
